@@ -84,7 +84,7 @@ extern "C" void h_csv(void)
 	int kind[9]; int iv[9]; char sv[9][4];
 	{
 		TabularDataFile f("t.csv");
-		f.columns(cols == 2 ? "c0,c1" : "c0,c1,c2");
+		f.columns(cols == 1 ? "c0" : cols == 2 ? "c0,c1" : "c0,c1,c2");
 		for (int r = 0; r < rows; r++) for (int c = 0; c < cols; c++) {
 			int i = r * cols + c;
 			if (i < firstsym || i >= firstsym + nsymc) { if (i & 1) { kind[i] = 2; strcpy(sv[i], "x y"); f << Var("x y"); } else { kind[i] = 0; iv[i] = 7; f << Var(7); } continue; }
